@@ -674,6 +674,10 @@ def stream_eq(ctx, programs):
             if qi[0] != 3:
                 want[-2] = -1
             bits_c = ''.join('1' if (cp == a) is True else '0' for k, a, _ in envs[:200])
+            import copy as _copy
+            if enc_qatom(_copy.copy(q)) != enc_qatom(cp):          # `copy.copy(q)` is documented as `q.copy()`
+                ctx.fail('C08/query-copy-differs', f'copy.copy of {text} differs from .copy(): {enc_qatom(_copy.copy(q))} vs {enc_qatom(cp)}',
+                         {'kind': 'copy', 'query': text})
             if enc_qatom(cf) != qi or enc_qatom(cp) != want or bits_c != ''.join(bits)[:200]:
                 ctx.fail('C08/query-copy-differs', f'copy of {text} is a different query: full {enc_qatom(cf)} plain {enc_qatom(cp)} original {qi}',
                          {'kind': 'copy', 'query': text})
@@ -750,6 +754,19 @@ def stream_bonds(ctx, programs):
         if enc_qbond(qs_) != enc_qbond(q) or enc_qbond(cf) != enc_qbond(q) or cp.order != q.order or cp.in_ring is not None:
             ctx.fail('C08/query-bond-copy-differs', f'QueryBond({q.order}, {q.in_ring}): set/copy give {enc_qbond(qs_)} {enc_qbond(cf)} {enc_qbond(cp)}',
                      {'kind': 'bond', 'line': str(enc_qbond(q))})
+        import copy as _copy
+        cc = _copy.copy(q)
+        if enc_qbond(cc) != enc_qbond(cp):
+            ctx.fail('C08/query-bond-copy-differs', f'copy.copy(QueryBond({q.order}, {q.in_ring})) = {enc_qbond(cc)}, .copy() = {enc_qbond(cp)}',
+                     {'kind': 'bond', 'line': str(enc_qbond(q))})
+        if len(q.order) == 1 and int(q) != q.order[0]:
+            ctx.fail('C08/query-bond-int', f'int(QueryBond({q.order}, {q.in_ring})) = {int(q)}', {'kind': 'bond', 'line': str(enc_qbond(q))})
+    # equal query bonds hash equally (they are dict / set members in rule tables)
+    for q in qbs:
+        for r in qbs:
+            if (q == r) is True and hash(q) != hash(r):
+                ctx.fail('C08/query-bond-hash', f'QueryBond({q.order}, {q.in_ring}) == QueryBond({r.order}, {r.in_ring}) but the hashes differ',
+                         {'kind': 'bond', 'line': str(enc_qbond(q))})
     # QueryBond.from_bond with every flag combination on every (order, ring, stereo) bond
     for o, r, b in bonds:
         for st in (None, False, True):
@@ -798,6 +815,20 @@ def stream_from_atom(ctx, programs):
             lines.append(line('fa', list(flags) + list(k)))
             reals.append(real)
             keys.append(('fa', k, flags))
+    # the `stereo` flag: the atom's mark is copied iff asked for; the mark never takes part in `==`
+    for k, a, _ in pick[:60]:
+        keep = a._stereo
+        try:
+            for mark in (None, True, False):
+                a._stereo = mark
+                for flag in (False, True):
+                    q = QueryElement.from_atom(a, stereo=flag)
+                    ctx.count(('fa-stereo', k, mark, flag))
+                    if q.stereo is not (mark if flag else None) or (q == a) is not True:
+                        ctx.fail('C08/from-atom-stereo-flag', f'from_atom({list(k)}, stereo={flag}) on an atom with mark {mark}: query mark {q.stereo}, '
+                                 f'== atom is {q == a}', {'kind': 'from_atom_env', 'matom': list(k), 'flags': [0, 0, 0, 0, 0]})
+        finally:
+            a._stereo = keep
     resp = core.run_driver('C08', lines)
     for key, real, model in zip(keys, reals, resp):
         ctx.count(key)
